@@ -19,7 +19,8 @@ _qc = itertools.count(1)
 
 DSL_NAMES = {"forall", "exists", "forall_range", "exists_range", "forall_keys", "exists_key", "forall_int",
              "forall_of", "exists_of", "implies", "iff", "ite", "same", "type_is", "old", "pre", "dpos", "dpos_exact", "dsize",
-             "opt_val", "str_of_int", "type_name", "str_of_type", "result_is_fresh", "uf", "fpow", "exc_arg", "calls", "call_kw", "call_pos", "call_seq"}
+             "opt_val", "str_of_int", "type_name", "str_of_type", "result_is_fresh", "uf", "fpow", "exc_arg", "calls", "call_kw", "call_pos", "call_seq",
+             "fcalls", "fcall_pos", "fcall_ret"}
 
 
 def _mentions_any(t) -> bool:
@@ -98,6 +99,7 @@ class SpecSet:
         self._opaque_attrs: dict = {}
         self._module_fns: dict = {}
         self.handlers: dict = {}
+        self.logged_functions: set = set()  # contracted functions whose calls are recorded in the ghost call log
         self.opaque_globals: dict = {}  # module-level objects of library types (e.g. a pydantic TypeAdapter): name -> type
         # postconditions recorded as known findings are FALSE on the current tree: a caller must never assume them
         self.unproved: set = set()
@@ -147,6 +149,7 @@ class SpecSet:
         self.event_fields_src.update(consts.get("EVENT_FIELDS", {}))
         self.inline.update(consts.get("INLINE", []))
         self.opaque_globals.update(consts.get("OPAQUE_GLOBALS", {}))
+        self.logged_functions.update(consts.get("LOGGED_FUNCTIONS", []))
         self.lock_types.update(consts.get("LOCK_TYPES", []))
         self.frozen_write_ok.update(consts.get("FROZEN_WRITE_OK", []))
         self.extra_subclass.update(consts.get("EXTRA_SUBCLASS", {}))
@@ -257,9 +260,34 @@ class SpecSet:
         for (cls, fld), s in self.field_types_src.items():
             w.field_types[(cls, fld)] = ty(s)
         for cls, fs in self.plain_classes_src.items():
-            w.plain_classes[cls] = [(f, None) for f, _ in fs]
+            w.plain_classes[cls] = [(f, None) for f, _ in fs if f != "*"]
         for cls, fs in self.plain_classes_src.items():
-            w.plain_classes[cls] = [(f, ty(s)) for f, s in fs]
+            out_ = [(f, ty(s)) for f, s in fs if f != "*"]
+            if any(f == "*" for f, _ in fs):
+                # ("*", "init-annotated"): every `self.x: T = ...` of the real class's __init__ that the spec does
+                # not declare is a field too (so a field a change adds is seen, with the type the code gives it)
+                ci_ = None
+                for m_ in dict.fromkeys(self.default_module.values()):
+                    try:
+                        if m_ and cls in w.repo.module(m_).classes:
+                            ci_ = w.repo.module(m_).classes[cls]
+                            break
+                    except Exception:
+                        continue
+                init_ = ci_.methods.get("__init__") if ci_ is not None else None
+                have_ = {f for f, _ in out_}
+                for n_ in (ast.walk(init_.node) if init_ is not None else ()):
+                    if isinstance(n_, ast.AnnAssign) and isinstance(n_.target, ast.Attribute) \
+                            and isinstance(n_.target.value, ast.Name) and n_.target.value.id == "self" \
+                            and n_.target.attr not in have_:
+                        try:
+                            t_ = w.resolve_ann(n_.annotation, ci_.module)
+                        except Exception:
+                            continue
+                        if not _mentions_any(t_):
+                            out_.append((n_.target.attr, t_))
+                            have_.add(n_.target.attr)
+            w.plain_classes[cls] = out_
         for k, s in self.event_fields_src.items():
             self._event_fields[k] = ty(s)
         for (tn, m_), spec in self.opaque_methods_src.items():
@@ -789,6 +817,20 @@ class DslMixin:
             if v is None:
                 return SV(None, T.NONE)  # the argument was not passed (or is not a value)
             return v
+        if name in ("fcalls", "fcall_pos", "fcall_ret"):
+            # ghost log of calls to contracted repository functions (spec const LOGGED_FUNCTIONS)
+            fname = ast.literal_eval(node.args[0])
+            log = [r for r in self.st.__dict__.get("call_log", []) if r["recv"] is None and r["method"] == fname]
+            if name == "fcalls":
+                return SV(z3.IntVal(len(log)), T.INT)
+            k = ast.literal_eval(node.args[1])
+            if not (0 <= k < len(log)):
+                return SV(None, T.NONE)
+            if name == "fcall_ret":
+                return log[k].get("ret") or SV(None, T.NONE)
+            i = ast.literal_eval(node.args[2])
+            v = log[k]["args"][i] if i < len(log[k]["args"]) else None
+            return v if v is not None else SV(None, T.NONE)
         if name == "exc_arg":
             # exc_arg(e, i, "Type"): the i-th positional constructor argument of the raised exception e
             e = self.evv(node.args[0])
@@ -802,7 +844,11 @@ class DslMixin:
         if name == "uf":
             # uf("name", "ret type", args...) : an uninterpreted function shared between contracts
             fname = ast.literal_eval(node.args[0])
-            rt = self.w.resolve_ann(ast.parse(ast.literal_eval(node.args[1]), mode="eval").body, self.frames[-1].module)
+            rts = ast.literal_eval(node.args[1])
+            if rts.startswith("opaque:"):
+                rt = T.Opaque(rts.split(":", 1)[1])
+            else:
+                rt = self.w.resolve_ann(ast.parse(rts, mode="eval").body, self.frames[-1].module)
             av = [self.evv(a) for a in node.args[2:]]
             f = self.w.func(f"uf:{fname}", *[a.term.sort() for a in av], self.w.sort(rt))
             return SV(f(*[a.term for a in av]), rt)
